@@ -352,6 +352,24 @@ PROPS["C15"] = {
     "explanation": "Dual.tla models the provider merge loop step by step (two streams without repetition, found-set, countdown, every arrival order of items and stream ends) and states write routing, value preference and the address-class filters as functions; TLC checks once-per-provider, the count cap and the functions with four negative controls; a real dual.DHT performs provide, put, get, find-peer and find-providers against scripted WAN and LAN peers whose referrals carry every mix of address classes, under every (DFS, provider merge) or seeded arrival order; TLC validates which half sent what to whom, ADD_PROVIDER payloads, results and peerstore content against DualTrace.tla.",
 }
 
+PROPS["C17"] = {
+    "exhaustive": [
+        {"spec": "BufferedOps.tla", "cfg": "BufferedOps_quick.cfg"},
+        {"spec": "BufferedOps.tla", "cfg": "BufferedOps_thorough.cfg", "tier": "thorough", "timeout": 3000},
+        {"spec": "BufferedOps.tla", "cfg": "BufferedOps_neg_once.cfg", "expect": "violation"},
+        {"spec": "BufferedOps.tla", "cfg": "BufferedOps_neg_stop.cfg", "expect": "violation"},
+    ],
+    "drivers": [{"test": "TestSweep", "trace_spec": "SweepTrace.tla", "trace_cfg": "SweepTrace.cfg", "inv_cfg": {"C17": "SweepTrace_C17.cfg"}}],
+    "assumptions": [
+        "the closest-peers router answers from the simulated swarm with the replication-factor many nearest peers of any key (the DHT lookup the provider is built on returns bucket-size = replication-factor peers), or fails while the node is offline",
+        "the network is instantaneous: all work triggered at one virtual instant completes in it; swarm changes, outages and restarts happen at quiescent points; the ADD_PROVIDERs of one key at one instant are one advertisement",
+        "after connectivity returns, after a restart and after a call the node is given 10 virtual minutes before obligations are checked; the reprovide bound is interval + max delay + 1 minute",
+        "the provider's random keys (network size estimation) are drawn from a scenario-seeded stream substituted for crypto/rand.Reader so that runs can be repeated; remaining scheduling differences are covered by running a replay four times",
+        "replication factors 2-5 with swarms of 4-65 peers; the dual wrapper is not exercised",
+    ],
+    "explanation": "BufferedOps.tla models the buffered wrapper's coalescing of a batch of start / forced start / provide-once / stop operations against applying them one by one (same kept set, every advertisement asked for last is queued) for all batches up to length 6 over 2 keys, with two negative controls; a real SweepingProvider (optionally behind the buffered wrapper) runs histories of start/once/stop calls, swarm growth and shrinkage, outages, restarts over several reprovide cycles of virtual time against a router and message sender that answer from a simulated swarm; TLC validates every advertisement (exactly the r nearest peers, current addresses), the reprovide deadline, catch-up after outages and restarts, and silence after stop against SweepTrace.tla.",
+}
+
 
 def overlay_file(scratch, name):
     """Writes the -overlay json for an internal-package driver (add-only mappings)."""
@@ -1349,7 +1367,101 @@ def mut_c15_union(run):
     return None
 
 
+def _c17(run):
+    return "nkeys" in run[0] and "interval" in run[0]
+
+
+def _c17_batches(run):
+    """indices of Send events grouped by (ts, k) for instants without failed sends or gave-up lookups"""
+    groups = {}
+    for i, ev in enumerate(run):
+        if ev["e"] == "Send":
+            groups.setdefault((ev["ts"], ev["k"]), []).append(i)
+    return groups
+
+
+def mut_c17_wrong_recipient(run):
+    if not _c17(run):
+        return None
+    for i, ev in enumerate(run):
+        if ev["e"] == "Send":
+            r = copy.deepcopy(run)
+            r[i]["p"] = run[0]["npeers"] + 7
+            return r
+    return None
+
+
+def mut_c17_missing_recipient(run):
+    if not _c17(run) or run[0]["r"] < 2:
+        return None
+    for (ts, k), idx in _c17_batches(run).items():
+        if len(idx) >= 2 and not any(ev["e"] == "SendFail" and ev["ts"] == ts for ev in run):
+            r = copy.deepcopy(run)
+            del r[idx[0]]
+            return r
+    return None
+
+
+def mut_c17_never_reprovided(run):
+    # all advertisements of one kept key after its first instant are dropped
+    if not _c17(run):
+        return None
+    kept = set()
+    for ev in run:
+        if ev["e"] == "Start":
+            kept |= set(ev["keys"])
+        if ev["e"] in ("Stop", "Restart", "Offline"):
+            return None if not kept else _drop_later(run, sorted(kept)[0])
+    return _drop_later(run, sorted(kept)[0]) if kept else None
+
+
+def _drop_later(run, k):
+    first = None
+    out = []
+    dropped = 0
+    for ev in run:
+        if ev["e"] == "Send" and ev["k"] == k:
+            if first is None:
+                first = ev["ts"]
+            if ev["ts"] != first:
+                dropped += 1
+                continue
+        out.append(copy.deepcopy(ev))
+    return out if dropped else None
+
+
+def mut_c17_stopped_readvertised(run):
+    if not _c17(run):
+        return None
+    for i, ev in enumerate(run):
+        if ev["e"] == "Stop" and ev["keys"]:
+            k = ev["keys"][0]
+            later = [e for e in run[i + 1:] if e["e"] in ("Start", "Once") and k in e["keys"]]
+            if later:
+                continue
+            r = copy.deepcopy(run)
+            ts = ev["ts"] + run[0]["interval"] + run[0]["maxdelay"] + 500
+            # put it before the End event, at a later instant than everything else
+            last_ts = max([e.get("ts", 0) for e in run])
+            ts = max(ts, last_ts + 1)
+            r.insert(len(r) - 1, {"e": "Send", "k": k, "p": 1, "ts": ts, "typ": "ADD_PROVIDER", "addrsok": True, "near": True, "t": ev["t"]})
+            return r
+    return None
+
+
+def mut_c17_stale_addrs(run):
+    if not _c17(run):
+        return None
+    for i, ev in enumerate(run):
+        if ev["e"] == "Send":
+            r = copy.deepcopy(run)
+            r[i]["addrsok"] = False
+            return r
+    return None
+
+
 MUTATIONS = {
+    "C17": [mut_c17_wrong_recipient, mut_c17_missing_recipient, mut_c17_never_reprovided, mut_c17_stopped_readvertised, mut_c17_stale_addrs],
     "C15": [mut_c15_wrong_half, mut_c15_lan_preferred, mut_c15_dup_provider, mut_c15_over_count, mut_c15_private_referral, mut_c15_stored_private, mut_c15_advertised_loopback, mut_c15_union],
     "C16": [mut_c16_unsorted, mut_c16_not_nearest, mut_c16_stranger, mut_c16_group, mut_c16_crawl_twice, mut_c16_no_outcome, mut_c16_unreached, mut_c16_op_panic, mut_c16_swap_mix],
     "C11": [mut_c11_crossed, mut_c11_late_success, mut_c11_pipelined, mut_c11_reuse, mut_c11_not_reset, mut_c11_two_streams],
